@@ -837,20 +837,21 @@ class Optimizer(Logger, Citable):
 
         result_dict = {}
 
-        sorted_weights = weights.argsort()
+        # allreduce concatenates the per-rank lists in rank order and rank r
+        # holds samples r, r+num_procs, ...: sample index of every entry
+        sample_order = np.concatenate(
+            [np.arange(r, len_samples, num_procs) for r in range(num_procs)])
 
         for param, (trace, w) in derived_param.items():
 
-            # I cant remember why this works
+            # Lists are concatenated in rank order
             all_trace = np.array(mpi.allreduce(trace, op='SUM'))
-            # I cant remember why this works
             all_weight = np.array(mpi.allreduce(w, op='SUM'))
 
-            all_weight_sort = all_weight.argsort()
-
-            # Sort them into the right order
-            all_weight[sorted_weights] = all_weight[all_weight_sort]
-            all_trace[sorted_weights] = all_trace[all_weight_sort]
+            # Put them back into sample order (sorting both by weight
+            # misplaces samples with equal weights)
+            all_weight[sample_order] = all_weight.copy()
+            all_trace[sample_order] = all_trace.copy()
 
             q_16, q_50, q_84 = \
                 quantile_corner(np.array(all_trace), [0.16, 0.5, 0.84],
